@@ -626,7 +626,8 @@ def conditions(tier):
             for which in ('find', 'rfind', 'findall'):
                 if q and (n, m) == (17, 8) and which == 'findall':
                     continue
-                if q:
+                if q or which == 'findall' or (n, m) == (20, 8):
+                    # (thorough: findall with a symbolic start as well does not finish within the per-condition budget)
                     add(f'C12.{which}-aligned[{c},n={n},m={m},start=None]', h_find(c, n, m, which, True, True), f'all contents ({n}-bit data, {m}-bit pattern) x end in [-{n + 1},{n + 1}] or None, bytealigned=True', n=n, m=m)
                     continue
                 add(f'C12.{which}-aligned[{c},n={n},m={m}]', h_find(c, n, m, which, True), f'all contents ({n}-bit data, {m}-bit pattern) x windows, bytealigned=True', n=n, m=m)
